@@ -164,7 +164,12 @@ def run(scen, spec, props):
                 break
             if pa and not pa[-1]:
                 break  # first model-based suggestion: from here on the two runs may legitimately differ
-            if (a.get("ret") or {}).get("config") != (b.get("ret") or {}).get("config"):
+            if (a.get("ret") or {}).get("config") != (b.get("ret") or {}).get("config") or (a.get("ret") is None) != (b.get("ret") is None):
+                # not model-based (an initial configuration or a random draw): a function of the restored state alone
+                res["viol"].append(V("C16", "R1.random_suggestion_differs", trA,
+                                     "after restore (state) at call boundary %d the %s suggestion for trial %s is %s, in the uninterrupted run %s" % (
+                                         p, _phase(pa), a.get("trial"), (b.get("ret") or {}).get("config"), (a.get("ret") or {}).get("config")),
+                                     None, mode=mode, searcher="gp"))
                 break
         seen = {}
         for d in dB:
